@@ -15,12 +15,14 @@ def partLevel : List (Option Int × Int) → Int → Option Int
   | (none, l) :: _, _ => some l
   | (some h, l) :: rest, s => if s < h then some l else partLevel rest s
 
-/-- Shape of the middleware body in logger.go: `next(c)` is called exactly once as a plain statement; both `LogAttrs`
-    calls come after it, exactly one of them on every control-flow path; no defer/go/recover; `c.Writer()` is only read
+/-- Shape of the middleware body in logger.go: `next(c)` is called exactly once as a plain statement; the `LogAttrs`
+    calls (two today; how many is no fact) come after it, exactly one of them on every control-flow path; the requests of one
+    Logger share nothing but the `slog.Logger` (no buffer or counter declared outside the per-request function); no defer/go/recover; `c.Writer()` is only read
     (`Status()`, `Header().Get`); message = `ipStr`, level = `lvl`; `location` is only assigned under
     `lvl == slog.LevelDebug`. -/
 theorem logger_facts_tie :
-    Generated.loggerNextCalls = 1 ∧ Generated.loggerNextTopLevel = true ∧ Generated.loggerLogCalls = 2 ∧
+    Generated.loggerNextCalls = 1 ∧ Generated.loggerNextTopLevel = true ∧ 1 ≤ Generated.loggerLogCalls ∧
+    Generated.loggerSharedState = ["slog.New"] ∧
     Generated.loggerLogAfterNext = true ∧ Generated.loggerLogExclusive = true ∧
     Generated.loggerNoDeferRecover = true ∧ Generated.loggerWriterReadOnly = true ∧
     Generated.loggerMsgIsIPStr = true ∧ Generated.loggerLocationOnlyAtDebug = true := by decide
